@@ -20,7 +20,8 @@ RULE = ('all 65536 int16 values through int16_samples_to_float32 / float_samples
         'ulps around and half-way between sample boundaries and multiples of the signal length, shorter and longer '
         'than the signal, zero, tiny, negative and huge; stereo pairs of every length relation and dtype relation; '
         'mono int16 signals through the scipy WAV container, and the "decode twice" discipline (decode, modify the result in place, '
-        'decode / crop / jitter / normalize the same bytes again: nothing may change); a spy run of the real repeat arithmetic for durations '
+        'decode / crop / jitter / normalize the same bytes again: nothing may change); every helper call under a call-twice / overwrite-the-result / arguments-untouched discipline; the same samples in six containers, non-standard and float sample rates, int-typed times; rejection classes; two-step sessions feeding outputs into other helpers; '
+        'a spy run of the real repeat arithmetic for durations '
         'far too long to allocate. non-trivial = the implementation returned a value (not an exception) that is not '
         'the whole input unchanged; distinct by canonical input')
 ASSUMPTIONS = ['numpy float32 division/multiplication are IEEE-754 correctly rounded (tied exhaustively for the division on all '
@@ -33,7 +34,20 @@ TRUSTED = ['Coq.Floats.SpecFloat (SFdiv/SFmul/binary_normalize at prec=24, emax=
 EXHAUSTIVE = {'quick': False, 'thorough': False}
 
 ERR = {1: 'OverflowError', 2: 'ZeroDivisionError', 3: 'ValueError', 4: 'AudioIODataTypeError'}
-DTYPES = {1: 'int16', 2: 'float32', 3: 'float64', 4: 'int64'}
+DTYPES = {1: 'int16', 2: 'float32', 3: 'float64', 4: 'int64', 5: 'int32', 6: 'uint8'}
+
+
+def _stereo_arr(np, vals, d):
+    """channel values in dtype d: fractional (v/8) for float dtypes, |v| for unsigned"""
+    if d in (2, 3):
+        return np.array(vals, dtype=DTYPES[d]) / np.dtype(DTYPES[d]).type(8)
+    if d == 6:
+        return np.array([abs(v) for v in vals], dtype=DTYPES[d])
+    return np.array(vals, dtype=DTYPES[d])
+
+
+def _stereo_val(v, d):
+    return abs(v) if d == 6 else v
 
 
 def _np():
@@ -220,6 +234,7 @@ def corpus():
             out.append({'op': 'wav_twice', 'input': [[-32768, -1, 0, 32767, 12345, -4242, 7, 5], rate, k % 3, helper]})
             k += 1
     out.append({'op': 'wav_twice', 'input': [[], 16000, 0, 0]})
+    out += _audit_corpus()
     return out
 
 
@@ -232,7 +247,7 @@ def cases(rng, tier, n=None):
         out.append({'op': 'f32_i16', 'input': [_boundary_f32(rng, 400)]})
         out.append({'op': 'f64_i16', 'input': [_boundary_f64(rng, 400)]})
     for _ in range(500 * mul):
-        rate = rng.choice(RATES)
+        rate = _rate(rng)
         ln = _len(rng, True)
         b = _rand_time(rng, rate, ln)
         t = _rand_time(rng, rate, ln)
@@ -245,13 +260,13 @@ def cases(rng, tier, n=None):
             t = rng.choice([1e300, 1e17, 3e303])
         out.append({'op': 'crop_ramp', 'input': [rng.choice([0, 0, 1, -5000]), ln, rate, T(b), T(t)]})
     for _ in range(150 * mul):
-        rate = rng.choice(RATES)
+        rate = _rate(rng)
         ln = rng.randint(0, 12)
         xs = [rng.randint(-32768, 32767) for _ in range(ln)]
         out.append({'op': 'crop_list', 'input': [xs, rate, T(_rand_time(rng, rate, ln)), T(_rand_time(rng, rate, ln))]})
     cap = 2000000 if thorough else 400000
     for _ in range(350 * mul):
-        rate = rng.choice(RATES)
+        rate = _rate(rng)
         ln = _len(rng, True)
         r = rng.random()
         if ln == 0:
@@ -273,7 +288,7 @@ def cases(rng, tier, n=None):
             d = _ulps(lim / rate, rng.choice([0, 1, -1]))
         out.append({'op': 'rep_ramp', 'input': [rng.choice([0, 0, 1, -5000]), ln, rate, T(d)]})
     for _ in range(150 * mul):
-        rate = rng.choice(RATES)
+        rate = _rate(rng)
         ln = rng.randint(0, 9)
         xs = [rng.randint(-32768, 32767) for _ in range(ln)]
         d = _rand_time(rng, rate, 4 * max(ln, 1))
@@ -284,19 +299,19 @@ def cases(rng, tier, n=None):
         la, lb = rng.randint(0, 10), rng.randint(0, 10)
         if rng.random() < 0.2:
             lb = la
-        dl = rng.choice([1, 1, 2, 3, 4])
-        dr = dl if rng.random() < 0.85 else rng.choice([1, 2, 3, 4])
+        dl = rng.choice([1, 1, 2, 3, 4, 5, 6])
+        dr = dl if rng.random() < 0.85 else rng.choice([1, 2, 3, 4, 5, 6])
         out.append({'op': 'stereo', 'input': [dl, dr, [rng.randint(-99, 99) for _ in range(la)],
                                               [rng.randint(-99, 99) for _ in range(lb)]]})
     for _ in range(8 * mul):
         k = rng.choice([1, 10, 100, 300])
-        out.append({'op': 'wav', 'input': [[rng.randint(-32768, 32767) for _ in range(k)], rng.choice(RATES)]})
+        out.append({'op': 'wav', 'input': [[rng.randint(-32768, 32767) for _ in range(k)], _rate(rng)]})
     for _ in range(12 * mul):
         k = rng.choice([1, 2, 10, 100, 2000])
         out.append({'op': 'wav_twice', 'input': [[rng.randint(-32768, 32767) for _ in range(k)], rng.choice(RATES),
                                                  rng.randrange(3), rng.randrange(len(WAV_HELPERS))]})
     for _ in range(300 * mul):     # real repeat arithmetic at sizes that cannot be allocated (spy)
-        rate = rng.choice(RATES)
+        rate = _rate(rng)
         ln = rng.randint(1, MAXLEN)
         kmax = 10 ** rng.randint(1, 6)
         k = rng.randint(1, kmax)
@@ -318,6 +333,7 @@ def cases(rng, tier, n=None):
                         out.append({'op': 'crop_list', 'input': [xs, rate, T(a2 / (2 * rate)), T(n2 / (2 * rate))]})
                 for d2 in range(0, 6 * ln + 5):
                     out.append({'op': 'rep_list', 'input': [xs, rate, T(d2 / (2 * rate))]})
+    out += _audit_cases(rng, mul)
     if n is not None:
         out = out[:n]
     return out
@@ -456,6 +472,9 @@ def impl(case):
     np = _np()
     aio = _aio()
     op, a = case['op'], case['input']
+    if op in AUDIT_OPS:
+        r = _call(lambda: _audit_verdict(case))
+        return r if r[0] != 'OK' else ['OK', 'holds' if r[1] is None else r[1]['kind']]
     if op == 'wav_twice':
         xs, rate, mutation, helper = a
         r = _call(lambda: _decode_twice(xs, rate, WAV_MUTATIONS[mutation], WAV_HELPERS[helper]))
@@ -494,9 +513,11 @@ def impl(case):
     if op == 'stereo':
         dl, dr, l, r = a
         def f():
-            o = aio.make_stereo(np.array(l, dtype=DTYPES[dl]), np.array(r, dtype=DTYPES[dr]))
+            o = aio.make_stereo(_stereo_arr(np, l, dl), _stereo_arr(np, r, dr))
             assert o.ndim == 2 and o.shape[1] == 2, o.shape
-            return [[int(u), int(v)] for u, v in o]
+            k = 8 if dl in (2, 3) else 1
+            assert all(float(u * k) == int(u * k) and float(v * k) == int(v * k) for u, v in o)
+            return [[int(u * k), int(v * k)] for u, v in o]
         return _call(f)
     if op == 'wav':
         xs, rate = a
@@ -533,7 +554,7 @@ def model_input(case):
     if op == 'rep_list':
         return [7] + a
     if op == 'stereo':
-        return [8] + a
+        return [8, a[0], a[1], [_stereo_val(v, a[0]) for v in a[2]], [_stereo_val(v, a[1]) for v in a[3]]]
     if op == 'wav':
         return [9, a[0]]
     if op == 'rep_len':
@@ -570,6 +591,414 @@ def equal(case, a, b):
     return a == b
 
 
+# ------------------------------------------------------------------ audit additions (A)-(D)
+RATES_X = [1, 7, 1000, 11025, 12345, 32000, 88200, 96000, 192000]      # non-standard but legal sample rates
+FRATES = [22050.0, 44100.5, 0.5, 8000.25]                               # float-valued rates (legal: only multiplied / divided)
+CONTAINERS = ['int64', 'float32', 'list', 'two-column int16', 'strided view', 'int16']
+BAD_FOR_TO_F32 = ['int32', 'uint16', 'int8', 'int64', 'float32', 'float64', 'bool']
+BAD_FOR_TO_I16 = ['int16', 'int32', 'int64', 'uint8', 'bool', 'complex64']
+BAD_WAV = ['empty', 'riff-only', 'garbage', 'header-cut', 'uint8', 'int32', 'float64']
+
+
+def _rate(rng):
+    return rng.choice(RATES) if rng.random() < 0.7 else rng.choice(RATES_X)
+
+
+def _key(a):
+    np = _np()
+    if isinstance(a, bytes):
+        return a
+    if isinstance(a, list):
+        return ('list', repr(a))
+    a = np.asarray(a)
+    return (str(a.dtype), a.shape, a.tobytes())
+
+
+def _arrs(args):
+    np = _np()
+    return [a for a in args if isinstance(a, np.ndarray)]
+
+
+def _dcall(helper, f, args, alias_ok=False, info=None):
+    """(B) discipline around one helper call: arguments are not modified; the result does not alias an argument
+    (unless the helper is documented/known to return a view: crop_samples); a second call on the same arguments
+    gives the same result in a different buffer; after the caller overwrites one returned array the arguments and the
+    earlier result are unchanged and a third call still gives the same result.
+    Returns (result, None) | (None, failure dict); exceptions of f propagate (after the argument check)."""
+    np = _np()
+    info = dict(info or {}, helper=helper)
+    before = [_key(a) for a in args]
+    try:
+        r1 = f(*args)
+    except BaseException:
+        if [_key(a) for a in args] != before:
+            raise AssertionError('argument-modified-before-raising')
+        raise
+    if [_key(a) for a in args] != before:
+        return None, dict(info, kind='argument-modified', how='by the call')
+    k1 = _key(r1)
+    isarr = isinstance(r1, np.ndarray)
+    if isarr and not alias_ok and r1.size and any(np.shares_memory(r1, a) for a in _arrs(args)):
+        return None, dict(info, kind='result-aliases-argument')
+    r2 = f(*args)
+    if _key(r2) != k1:
+        return None, dict(info, kind='repeated-call-differs', how='second call on the same arguments')
+    if isarr and not alias_ok and r1.size:
+        if np.shares_memory(r1, r2):
+            return None, dict(info, kind='results-share-a-buffer')
+        if r2.flags.writeable:
+            r2[...] = r2[::-1].copy() + r2.dtype.type(3)
+            if [_key(a) for a in args] != before:
+                return None, dict(info, kind='argument-modified', how='through the returned array')
+            if _key(r1) != k1:
+                return None, dict(info, kind='earlier-result-changed')
+            r3 = f(*args)
+            if _key(r3) != k1:
+                return None, dict(info, kind='repeated-call-differs', how='after the caller overwrote a returned array')
+    return r1, None
+
+
+def _container(np, xs, c):
+    """the same samples in different legal containers; rows() gives the comparable python rows"""
+    if c == 0:
+        return np.array(xs, dtype=np.int64)
+    if c == 1:
+        return (np.array(xs, dtype=np.float32) / np.float32(8))
+    if c == 2:
+        return list(xs)
+    if c == 3:
+        return np.stack([np.array(xs, dtype=np.int16), -np.array(xs, dtype=np.int16) // 2], axis=1) if xs else \
+            np.zeros((0, 2), dtype=np.int16)
+    if c == 4:
+        big = np.zeros(2 * len(xs) + 1, dtype=np.int64)
+        big[::2][:len(xs)] = xs
+        big[1::2] = 77777
+        return big[::2][:len(xs)]
+    return np.array(xs, dtype=np.int16)
+
+
+def _rows(np, v):
+    return [tuple(np.asarray(r).reshape(-1).tolist()) for r in v]
+
+
+def _num(p, as_int):
+    x = _F(p)
+    return int(x) if as_int and x == int(x) and abs(x) < 2 ** 53 else x
+
+
+def _var(kind, c, xs, rate, b, t, flags):
+    """(A)/(C): crop (kind 0) / repeat (kind 1) with the samples in container c, an int or float rate, and times passed
+    as python ints when integral (flags bit 0: begin, bit 1: length/duration).  Expectation from the REQUESTED values."""
+    np = _np()
+    aio = _aio()
+    rate = _F(rate) if isinstance(rate, list) else rate
+    info = {'container': CONTAINERS[c], 'len': len(xs), 'rate': rate}
+    samples = _container(np, xs, c)
+    src = _rows(np, samples)
+    if kind == 0:
+        bv, tv = _num(b, flags & 1), _num(t, flags & 2)
+        first, count = int(bv * rate), int(tv * rate)
+        info.update(begin=bv, length=tv, first=first, count=count)
+        got, fail = _dcall('crop_samples', aio.crop_samples, [samples, rate, bv, tv], alias_ok=True, info=info)
+        if fail:
+            return fail
+        want = [src[i] for i in range(first, min(first + count, len(src)))]
+        if _rows(np, got) != want:
+            return dict(info, kind='crop-wrong-samples', got_len=len(got), want_len=len(want))
+        if isinstance(samples, np.ndarray) and (getattr(got, 'dtype', None) != samples.dtype or got.shape[1:] != samples.shape[1:]):
+            return dict(info, kind='crop-changes-dtype-or-shape', dtype=str(getattr(got, 'dtype', type(got).__name__)))
+        return None
+    dv = _num(t, flags & 2)
+    n = int(dv * rate)
+    info.update(duration=dv, expected_samples=n)
+    if len(src) == 0 or dv < 0:                     # nothing to repeat / negative: outside the property; only (D)
+        try:
+            _dcall('repeat_samples_to_duration', aio.repeat_samples_to_duration, [samples, rate, dv], info=info)
+        except AssertionError:
+            return dict(info, kind='argument-modified', how='before raising')
+        except BaseException:
+            pass
+        return None
+    try:
+        got, fail = _dcall('repeat_samples_to_duration', aio.repeat_samples_to_duration, [samples, rate, dv], info=info)
+    except BaseException as e:
+        return dict(info, kind='repeat-raises', exc=type(e).__name__, zero_duration=dv == 0)
+    if fail:
+        return fail
+    if len(got) != n:
+        return dict(info, kind='repeat-wrong-length', got_len=int(len(got)), want_len=n)
+    if _rows(np, got) != [src[i % len(src)] for i in range(n)]:
+        return dict(info, kind='repeat-not-cyclic')
+    if n and isinstance(samples, np.ndarray) and (got.dtype != samples.dtype or got.shape[1:] != samples.shape[1:]):
+        return dict(info, kind='repeat-changes-dtype-or-shape', dtype=str(got.dtype))
+    return None
+
+
+def _reject(which, bad):
+    """(D): every documented rejection raises exactly the documented class and leaves its argument untouched."""
+    np = _np()
+    aio = _aio()
+    import io as _io
+    import scipy.io.wavfile as W
+
+    def expect(helper, f, arg, cls, what):
+        before = _key(arg)
+        try:
+            r = f(arg)
+        except BaseException as e:
+            if isinstance(e, (KeyboardInterrupt, SystemExit, MemoryError)):
+                raise
+            if type(e) is not cls:
+                return {'kind': 'wrong-exception-class', 'helper': helper, 'input': what, 'got': type(e).__name__,
+                        'want': cls.__name__}
+            if _key(arg) != before:
+                return {'kind': 'argument-modified', 'helper': helper, 'how': 'before raising', 'input': what}
+            return None
+        return {'kind': 'invalid-input-not-rejected', 'helper': helper, 'input': what, 'want': cls.__name__}
+
+    if which == 0:
+        dt = BAD_FOR_TO_F32[bad]
+        return expect('int16_samples_to_float32', aio.int16_samples_to_float32, np.array([0, 1, 0, 1, 1], dtype=dt),
+                      ValueError, dt)
+    if which == 1:
+        dt = BAD_FOR_TO_I16[bad]
+        return expect('float_samples_to_int16', aio.float_samples_to_int16, np.array([0, 1, 0, 1, 1], dtype=dt),
+                      ValueError, dt)
+    what = BAD_WAV[bad]
+    good = _io.BytesIO()
+    W.write(good, 16000, np.arange(-50, 50).astype(np.int16))
+    good = good.getvalue()
+    if what in ('uint8', 'int32', 'float64'):
+        b = _io.BytesIO()
+        W.write(b, 16000, (np.arange(0, 100) % 7).astype(what))
+        return expect('wav_data_to_samples', lambda d: aio.wav_data_to_samples(d, 16000), b.getvalue(), aio.AudioIOError, what)
+    data = {'empty': b'', 'riff-only': b'RIFF', 'garbage': b'not a wav file at all' * 4, 'header-cut': good[:20]}[what]
+    return expect('wav_data_to_samples', lambda d: aio.wav_data_to_samples(d, 16000), data, aio.AudioIOReadError, what)
+
+
+def _wav_var(xs, rate, channels, fmt, target):
+    """(A) for the wav pair: rate of the file, number of channels, sample format of the input to samples_to_wav_data
+    (float32 / float64 on the int16 grid) or a float32 WAV, and the rate requested from the decoder."""
+    np = _np()
+    aio = _aio()
+    import io as _io
+    import scipy.io.wavfile as W
+    info = {'n': len(xs), 'rate': rate, 'channels': channels, 'format': ['float32', 'float64-grid', 'float32-wav'][fmt],
+            'target_rate': target}
+    x = np.array(xs, dtype=np.int16)
+    if channels == 2:
+        x = np.stack([x, x[::-1] // 3], axis=1) if len(xs) else np.zeros((0, 2), dtype=np.int16)
+    y = aio.int16_samples_to_float32(x)
+    if fmt == 2:                       # 32-bit float WAV written by scipy directly: the decoder must hand the floats back
+        b = _io.BytesIO()
+        W.write(b, rate, y)
+        wav = b.getvalue()
+    else:
+        src = y if fmt == 0 else x.astype(np.float64) / 32767.0
+        wav, fail = _dcall('samples_to_wav_data', aio.samples_to_wav_data, [src, rate], info=info)
+        if fail:
+            return fail
+        sr, pcm = W.read(_io.BytesIO(wav))
+        if sr != rate:
+            return dict(info, kind='wav-header-rate', got=int(sr))
+        if pcm.dtype != np.int16 or pcm.shape != x.shape or not np.array_equal(pcm, x):
+            return dict(info, kind='wav-pcm-differs')
+    out, fail = _dcall('wav_data_to_samples', aio.wav_data_to_samples, [wav, target], info=info)
+    if fail:
+        return fail
+    if out.dtype != np.float32 or out.ndim != 1:
+        return dict(info, kind='wav-decoded-type', dtype=str(out.dtype), ndim=int(out.ndim))
+    mono = y if channels == 1 else (y[:, 0] + y[:, 1]) / np.float32(2)        # "converted to mono": mean of the channels
+    if target == rate:
+        if out.shape != mono.shape or not np.array_equal(out.view(np.uint32), mono.astype(np.float32).view(np.uint32)):
+            return dict(info, kind='wav-roundtrip-not-identity')
+    else:                              # resampled: only the length and sanity are claimed
+        want = len(xs) * target / rate
+        if abs(len(out) - want) > 1 or not np.all(np.isfinite(out)):
+            return dict(info, kind='wav-resampled-length', got_len=int(len(out)), want_len=want)
+    return None
+
+
+def _session(xs, rate, b, t, d, order):
+    """(B)(iv)/(C) two-step use: every helper fed with the OUTPUT of an earlier one, in a shuffled order of the
+    independent steps, all intermediate objects kept alive and re-observed at the end."""
+    np = _np()
+    aio = _aio()
+    import random as _random
+    bv, tv, dv = _F(b), _F(t), _F(d)
+    info = {'n': len(xs), 'rate': rate, 'begin': bv, 'length': tv, 'duration': dv, 'order': order}
+    x = np.array(xs, dtype=np.int16)
+    kept = []                                        # (name, object, key at creation)
+
+    def keep(name, o):
+        kept.append((name, o, _key(o)))
+        return o
+
+    keep('pcm', x)
+    y, fail = _dcall('int16_samples_to_float32', aio.int16_samples_to_float32, [x], info=info)
+    if fail:
+        return fail
+    keep('float', y)
+    first, count = int(bv * rate), int(tv * rate)
+    idx = [i for i in range(first, min(first + count, len(xs)))]
+    n = int(dv * rate)
+    steps = ['crop', 'stereo', 'to16', 'wav', 'rep']
+    _random.Random(order).shuffle(steps)
+    res = {}
+    for st in steps:
+        if st == 'crop':                             # crop of a converted signal, then repeat of the crop
+            c, fail = _dcall('crop_samples', aio.crop_samples, [y, rate, bv, tv], alias_ok=True, info=info)
+            if fail:
+                return fail
+            if not np.array_equal(c.view(np.uint32), y[idx].view(np.uint32)) or len(c) != len(idx):
+                return dict(info, kind='crop-wrong-samples', got_len=int(len(c)), want_len=len(idx), step='crop(float)')
+            res['crop'] = keep('crop', c)
+            if len(c):
+                r, fail = _dcall('repeat_samples_to_duration', aio.repeat_samples_to_duration, [c, rate, dv], info=info)
+                if fail:
+                    return fail
+                want = y[[idx[i % len(idx)] for i in range(n)]] if n else y[:0]
+                if len(r) != n or not np.array_equal(r.view(np.uint32), want.view(np.uint32)):
+                    return dict(info, kind='repeat-wrong-length' if len(r) != n else 'repeat-not-cyclic',
+                                got_len=int(len(r)), want_len=n, step='repeat(crop(float))')
+                keep('repeat-of-crop', r)
+                z, fail = _dcall('float_samples_to_int16', aio.float_samples_to_int16, [r], info=info)
+                if fail:
+                    return fail
+                if not np.array_equal(z, x[[idx[i % len(idx)] for i in range(n)]] if n else x[:0]):
+                    return dict(info, kind='pcm-roundtrip-not-identity', step='to_int16(repeat(crop(float)))')
+        elif st == 'stereo':                         # stereo of the signal and its reverse, then crop / repeat / wav of the stereo signal
+            rev = keep('reverse', y[::-1][: max(0, len(y) - 2)].copy())
+            s2, fail = _dcall('make_stereo', aio.make_stereo, [y, rev], info=info)
+            if fail:
+                return fail
+            m = max(len(y), len(rev))
+            if s2.shape != (m, 2) or s2.dtype != np.float32 or not np.array_equal(s2[:len(y), 0], y) or \
+                    not np.array_equal(s2[:len(rev), 1], rev) or np.any(s2[len(rev):, 1] != 0):
+                return dict(info, kind='stereo-wrong-sample', step='stereo(float, reversed)')
+            keep('stereo', s2)
+            c2, fail = _dcall('crop_samples', aio.crop_samples, [s2, rate, bv, tv], alias_ok=True, info=info)
+            if fail:
+                return fail
+            if c2.shape != (len(idx), 2) or not np.array_equal(c2, s2[idx]):
+                return dict(info, kind='crop-wrong-samples', step='crop(stereo)', got_len=int(len(c2)), want_len=len(idx))
+            if m:
+                r2, fail = _dcall('repeat_samples_to_duration', aio.repeat_samples_to_duration, [s2, rate, dv], info=info)
+                if fail:
+                    return fail
+                if r2.shape != (n, 2) or not np.array_equal(r2, s2[np.arange(n) % m]):
+                    return dict(info, kind='repeat-wrong-length' if len(r2) != n else 'repeat-not-cyclic',
+                                step='repeat(stereo)', got_len=int(len(r2)), want_len=n)
+        elif st == 'to16':
+            z, fail = _dcall('float_samples_to_int16', aio.float_samples_to_int16, [y], info=info)
+            if fail:
+                return fail
+            if z.dtype != np.int16 or not np.array_equal(z, x):
+                return dict(info, kind='pcm-roundtrip-not-identity', step='to_int16(float)')
+            keep('pcm-back', z)
+        elif st == 'wav':
+            w, fail = _dcall('samples_to_wav_data', aio.samples_to_wav_data, [y, rate], info=info)
+            if fail:
+                return fail
+            back, fail = _dcall('wav_data_to_samples', aio.wav_data_to_samples, [w, rate], info=info)
+            if fail:
+                return fail
+            if back.shape != y.shape or not np.array_equal(back.view(np.uint32), y.view(np.uint32)):
+                return dict(info, kind='wav-roundtrip-not-identity', step='wav(float)')
+            keep('decoded', back)
+        else:                                        # repeat of the whole converted signal
+            if len(y):
+                r, fail = _dcall('repeat_samples_to_duration', aio.repeat_samples_to_duration, [y, rate, dv], info=info)
+                if fail:
+                    return fail
+                if len(r) != n or not np.array_equal(r, y[np.arange(n) % len(y)]):
+                    return dict(info, kind='repeat-wrong-length' if len(r) != n else 'repeat-not-cyclic',
+                                step='repeat(float)', got_len=int(len(r)), want_len=n)
+                keep('repeat', r)
+    for name, o, k in kept:                           # (iv) everything produced earlier is still what it was
+        if _key(o) != k:
+            return dict(info, kind='earlier-result-changed', object=name)
+    return None
+
+
+AUDIT_OPS = ('var', 'reject', 'wav_var', 'session')
+
+
+def _audit_verdict(case):
+    op, a = case['op'], case['input']
+    if op == 'var':
+        return _var(*a)
+    if op == 'reject':
+        return _reject(*a)
+    if op == 'wav_var':
+        return _wav_var(*a)
+    return _session(*a)
+
+
+def _audit_corpus():
+    T = fl.me
+    out = []
+    xs = [5, -3, 9, 4, 4, 0, 120, -7]
+    for c in range(len(CONTAINERS)):
+        for rate in (8000, 11025, [*T(22050.0)], [*T(44100.5)]):
+            rt = _F(rate) if isinstance(rate, list) else rate
+            # offsets / lengths exactly at and one beyond the ends
+            for a_, n_ in ((0, 8), (0, 9), (7, 1), (7, 2), (8, 0), (8, 1), (9, 3), (3, 0), (0, 0)):
+                out.append({'op': 'var', 'input': [0, c, xs, rate, T(a_ / rt), T(n_ / rt), 0]})
+            for n_ in (0, 1, 7, 8, 9, 16, 17):
+                out.append({'op': 'var', 'input': [1, c, xs, rate, T(0.0), T(n_ / rt), 0]})
+        out.append({'op': 'var', 'input': [0, c, [], 8000, T(0.0), T(1.0), 3]})          # empty signal, int-typed times
+        out.append({'op': 'var', 'input': [0, c, [42], 1, T(0.0), T(1.0), 3]})            # one sample, rate 1, ints
+        out.append({'op': 'var', 'input': [1, c, [42], 1, T(0.0), T(5.0), 3]})
+        out.append({'op': 'var', 'input': [1, c, [42], 16000, T(0.0), T(0.0), 2]})        # duration int 0
+    for which, n in ((0, len(BAD_FOR_TO_F32)), (1, len(BAD_FOR_TO_I16)), (2, len(BAD_WAV))):
+        for bad in range(n):
+            out.append({'op': 'reject', 'input': [which, bad]})
+    sig = [-32768, -1, 0, 32767, 12345, -4242, 7, 5, 100, -100]
+    for channels in (1, 2):
+        for fmt in (0, 1, 2):
+            for rate, target in ((16000, 16000), (11025, 11025), (1, 1), (16000, 8000), (8000, 22050), (44100, 44100)):
+                out.append({'op': 'wav_var', 'input': [sig, rate, channels, fmt, target]})
+            out.append({'op': 'wav_var', 'input': [[], 16000, channels, fmt, 16000]})
+            out.append({'op': 'wav_var', 'input': [[9], 16000, channels, fmt, 16000]})
+    for order in range(6):
+        out.append({'op': 'session', 'input': [sig, RATES[order % 5], T(2 / RATES[order % 5]), T(5 / RATES[order % 5]),
+                                               T(13 / RATES[order % 5]), order]})
+    out.append({'op': 'session', 'input': [[], 8000, T(0.0), T(1.0), T(0.0), 0]})
+    out.append({'op': 'session', 'input': [[-32768], 8000, T(0.0), T(1.0), T(0.0), 1]})
+    out.append({'op': 'session', 'input': [[7, 8], 1, T(1.0), T(1.0), T(3.0), 2]})
+    return out
+
+
+def _audit_cases(rng, mul):
+    T = fl.me
+    out = []
+    for _ in range(160 * mul):
+        kind = rng.randrange(2)
+        c = rng.randrange(len(CONTAINERS))
+        ln = rng.choice([0, 1, 1, 2, 3, 5, 8, 13])
+        xs = [rng.randint(-32000, 32000) for _ in range(ln)]
+        r = rng.random()
+        rate = _rate(rng) if r < 0.8 else [*T(rng.choice(FRATES))]
+        rt = _F(rate) if isinstance(rate, list) else rate
+        b = _rand_time(rng, rt, ln)
+        t = _rand_time(rng, rt, ln) if kind == 0 else min(_rand_time(rng, rt, 4 * max(ln, 1)), 64 / rt)
+        out.append({'op': 'var', 'input': [kind, c, xs, rate, T(b), T(t), rng.randrange(4)]})
+    for _ in range(30 * mul):
+        ln = rng.choice([0, 1, 2, 17, 200])
+        rate = _rate(rng)
+        target = rate if rng.random() < 0.7 else _rate(rng)
+        out.append({'op': 'wav_var', 'input': [[rng.randint(-32768, 32767) for _ in range(ln)], rate, rng.choice([1, 2]),
+                                               rng.randrange(3), target]})
+    for _ in range(40 * mul):
+        ln = rng.choice([0, 1, 2, 3, 9, 40])
+        rate = _rate(rng)
+        out.append({'op': 'session', 'input': [[rng.randint(-32768, 32767) for _ in range(ln)], rate,
+                                               T(_rand_time(rng, rate, ln)), T(_rand_time(rng, rate, ln)),
+                                               T(min(_rand_time(rng, rate, 3 * max(ln, 1)), 200 / rate)), rng.randrange(1000)]})
+    return out
+
+
 # ------------------------------------------------------------------ oracle: the property on the implementation
 def oracle(case, io):
     np = _np()
@@ -578,8 +1007,12 @@ def oracle(case, io):
     if op == 'pcm':
         lo, n = a
         x = np.arange(lo, lo + n).astype(np.int16)
-        y = aio.int16_samples_to_float32(x)
-        z = aio.float_samples_to_int16(y)
+        y, fail = _dcall('int16_samples_to_float32', aio.int16_samples_to_float32, [x], info={'block': lo})
+        if fail:
+            return fail
+        z, fail = _dcall('float_samples_to_int16', aio.float_samples_to_int16, [y], info={'block': lo})
+        if fail:
+            return fail
         bad = np.nonzero(z != x)[0]
         if bad.size:
             i = int(bad[0])
@@ -588,7 +1021,14 @@ def oracle(case, io):
             return {'kind': 'pcm-dtype', 'float': str(y.dtype), 'int': str(z.dtype)}
         return None
     if op in ('f32_i16', 'f64_i16'):
-        return None      # correspondence only (the property constrains the composite, checked by 'pcm')
+        # values: correspondence only (the property constrains the composite, checked by 'pcm'); here the (B) discipline
+        y = np.array([_F(p) for p in a[0]], dtype=np.float64).astype(np.float32 if op == 'f32_i16' else np.float64)
+        z, fail = _dcall('float_samples_to_int16', aio.float_samples_to_int16, [y], info={'dtype': str(y.dtype)})
+        if fail:
+            return fail
+        if z.dtype != np.int16 or z.shape != y.shape:
+            return {'kind': 'pcm-dtype', 'int': str(z.dtype)}
+        return None
     if op in ('crop_ramp', 'crop_list'):
         if op == 'crop_ramp':
             lo, ln, rate, b, t = a
@@ -606,9 +1046,12 @@ def oracle(case, io):
         want = x[[i for i in range(first, min(first + count, len(x)))]] if len(x) < 64 else \
             x[np.arange(first, max(first, min(first + count, len(x))))]
         try:
-            got = aio.crop_samples(x, rate, b, t)
+            got, fail = _dcall('crop_samples', aio.crop_samples, [x, rate, b, t], alias_ok=True,
+                               info={'len': len(x), 'rate': rate, 'begin': b, 'length': t})
         except BaseException as e:
             return {'kind': 'crop-raises', 'exc': type(e).__name__, 'len': len(x), 'rate': rate, 'begin': b, 'length': t}
+        if fail:
+            return fail
         if len(got) != len(want) or not np.array_equal(np.asarray(got), np.asarray(want)):
             return {'kind': 'crop-wrong-samples', 'len': len(x), 'rate': rate, 'begin': b, 'length': t,
                     'first': first, 'count': count, 'got_len': int(len(got)), 'want_len': int(len(want))}
@@ -625,10 +1068,13 @@ def oracle(case, io):
             return None                                  # nothing to repeat / negative / int(inf): outside the property
         n = int(d * rate)
         try:
-            got = aio.repeat_samples_to_duration(x, rate, d)
+            got, fail = _dcall('repeat_samples_to_duration', aio.repeat_samples_to_duration, [x, rate, d],
+                               info={'len': len(x), 'rate': rate, 'duration': d})
         except BaseException as e:
             return {'kind': 'repeat-raises', 'exc': type(e).__name__, 'len': len(x), 'rate': rate, 'duration': d,
                     'expected_samples': n, 'zero_duration': d == 0.0}
+        if fail:
+            return fail
         if len(got) != n:
             return {'kind': 'repeat-wrong-length', 'len': len(x), 'rate': rate, 'duration': d, 'got_len': int(len(got)),
                     'want_len': n}
@@ -652,23 +1098,38 @@ def oracle(case, io):
         return None
     if op == 'stereo':
         dl, dr, l, r = a
+        la, ra = _stereo_arr(np, l, dl), _stereo_arr(np, r, dr)
         if dl != dr:
             if io != ['EXC', 'AudioIODataTypeError']:
                 return {'kind': 'stereo-dtype-mismatch-not-rejected', 'dtypes': [DTYPES[dl], DTYPES[dr]]}
+            kl, kr = _key(la), _key(ra)
+            try:
+                aio.make_stereo(la, ra)
+            except BaseException as e:
+                if type(e) is not aio.AudioIODataTypeError:
+                    return {'kind': 'wrong-exception-class', 'helper': 'make_stereo', 'got': type(e).__name__}
+            if (_key(la), _key(ra)) != (kl, kr):
+                return {'kind': 'argument-modified', 'helper': 'make_stereo', 'how': 'before raising'}
             return None
         try:
-            o = aio.make_stereo(np.array(l, dtype=DTYPES[dl]), np.array(r, dtype=DTYPES[dr]))
+            o, fail = _dcall('make_stereo', aio.make_stereo, [la, ra], info={'lens': [len(l), len(r)], 'dtype': DTYPES[dl]})
         except BaseException as e:
             return {'kind': 'stereo-raises', 'exc': type(e).__name__, 'lens': [len(l), len(r)]}
+        if fail:
+            return fail
         m = max(len(l), len(r))
         if o.shape != (m, 2) or str(o.dtype) != DTYPES[dl]:
             return {'kind': 'stereo-shape', 'shape': list(o.shape), 'lens': [len(l), len(r)], 'dtype': str(o.dtype)}
         for i in range(m):
-            wl = l[i] if i < len(l) else 0
-            wr = r[i] if i < len(r) else 0
+            wl = la[i] if i < len(l) else 0
+            wr = ra[i] if i < len(r) else 0
             if o[i][0] != wl or o[i][1] != wr:
-                return {'kind': 'stereo-wrong-sample', 'index': i, 'lens': [len(l), len(r)]}
+                return {'kind': 'stereo-wrong-sample', 'index': i, 'lens': [len(l), len(r)], 'dtype': DTYPES[dl]}
         return None
+    if op in AUDIT_OPS:
+        if io[0] != 'OK':
+            return {'kind': 'helper-raises', 'exc': io[1], 'op': op, 'input': a if len(str(a)) < 300 else str(a)[:300]}
+        return _audit_verdict(case)
     if op == 'wav_twice':
         xs, rate, mutation, helper = a
         if io[0] != 'OK':
@@ -680,7 +1141,16 @@ def oracle(case, io):
             return {'kind': 'wav-raises', 'exc': io[1], 'n': len(xs), 'rate': rate}
         x = np.array(xs, dtype=np.int16)
         y = aio.int16_samples_to_float32(x)
-        y2 = aio.wav_data_to_samples(aio.samples_to_wav_data(y, rate), rate)
+        wav, fail = _dcall('samples_to_wav_data', aio.samples_to_wav_data, [y, rate], info={'n': len(xs), 'rate': rate})
+        if fail:
+            return fail
+        import io as _io
+        import scipy.io.wavfile
+        if scipy.io.wavfile.read(_io.BytesIO(wav))[0] != rate:
+            return {'kind': 'wav-header-rate', 'n': len(xs), 'rate': rate}
+        y2, fail = _dcall('wav_data_to_samples', aio.wav_data_to_samples, [wav, rate], info={'n': len(xs), 'rate': rate})
+        if fail:
+            return fail
         if y2.dtype != np.float32 or y2.shape != y.shape or not np.array_equal(y2.view(np.uint32), y.view(np.uint32)):
             return {'kind': 'wav-roundtrip-not-identity', 'n': len(xs), 'rate': rate}
         if io[1][0] != xs:
@@ -711,6 +1181,8 @@ def nontrivial(case, io):
         return len(a[0]) > 0
     if op == 'wav_twice':
         return len(a[0]) > 0
+    if op in AUDIT_OPS:
+        return op == 'reject' or len(a[2] if op == 'var' else a[0]) > 0
     if op == 'rep_len':
         return io[1] > a[0]
     return True
